@@ -221,6 +221,12 @@ def _kf8_pretty(prop, f):
         return False
     I = common.impl()
     t = common.load_tree(inp["tree"])
+    # KF8 is a defect of PRINTING (no blank between `name:` and a time-like value because the tree has none): the
+    # pretty printer inherits it only when the plain printed form of the tree already re-parses to something else.
+    # A tree whose printed form is fine must also survive pretty-printing (seeded C18-G glues `slotT10: 30`).
+    r0, back0 = parsing.impl_parse(t.__str__(head_tail=True))
+    if back0 is not None and back0 == t:
+        return False
     if _glue_repair(t, {"KF8"}) == 0:
         return False
     pp = I.pretty.Prettifier(indent=inp.get("indent", 4), max_len=inp.get("max_len", 80),
